@@ -72,6 +72,9 @@ class Element:
     def xpath(self, path):
         """the fixed forms depccg uses: 'tag', './tag', './/tag', './tag[N]', './/tag[@attr="v"]'"""
         import re
+        m = re.fullmatch(r'\.//descendant-or-self::\*\[@(\w+)="([^"]*)"\]', path)
+        if m:
+            return [e for e in self.iter() if e.get(m.group(1)) == m.group(2)]
         m = re.fullmatch(r'(\.//|\./|//)?([A-Za-z_][\w\-]*)(?:\[(\d+)\])?(?:\[@(\w+)=[\'"]([^\'"]*)[\'"]\])?', path)
         if not m:
             raise Unsupported('xpath ' + path)
